@@ -94,9 +94,9 @@ Ltac z_hyps :=
          end.
 
 Lemma inv3_step_io : forall c s ch s' l,
-  Inv3 s -> step_io c s ch = Some (s', l) -> taint s' = false -> Inv3 s'.
+  Inv3 s -> step_io c s ch = Some (s', l) -> Inv3 s'.
 Proof.
-  intros c s ch s' l [Hpe Ht3 Hc2 Hc3 Hlate Hscx Hn] H Ht. unfold tot_ok in Ht3. unfold step_io in H. step_cases H.
+  intros c s ch s' l [Hpe Ht3 Hc2 Hc3 Hlate Hscx Hn] H. unfold tot_ok in Ht3. unfold step_io in H. step_cases H.
   all: unfold after_read, turn_start, hc_return, goio in *.
   all: repeat match goal with |- context [if ?b then _ else _] => destruct b eqn:? end.
   all: z_hyps.
@@ -112,15 +112,14 @@ Proof.
 Qed.
 
 Lemma inv3_step_w : forall c s i ch s' l,
-  Inv1 s -> Inv2 s -> Inv3 s -> step_w c s i ch = Some (s', l) -> taint s' = false -> Inv3 s'.
+  Inv1 s -> Inv2 s -> Inv3 s -> step_w c s i ch = Some (s', l) -> Inv3 s'.
 Proof.
-  intros c s i ch s' l HI1 HI2 [Hpe Ht3 Hc2 Hc3 Hlate Hscx Hn] H Ht. unfold step_w in H.
+  intros c s i ch s' l HI1 HI2 [Hpe Ht3 Hc2 Hc3 Hlate Hscx Hn] H. unfold step_w in H.
   destruct (getw s i) as [pc|] eqn:Hg; [|discriminate]. unfold getw in Hg.
   assert (Hni : forall n, wpc_n pc = Some n -> 0 < n) by (intros n0 Hx; eapply Hn; eauto).
   assert (Hsi : w_scx pc = true -> conn s = false) by (intros Hx; eapply Hscx; eauto).
   unfold tot_ok in Ht3.
   step_cases H.
-  all: simpl in Ht; try discriminate Ht.
   all: unfold setw, hw_exit in *.
   all: repeat match goal with |- context [if ?b then _ else _] => destruct b eqn:? end.
   all: repeat match goal with |- context [match ?b with SWr _ => _ | SEnd => _ end] => destruct b eqn:? end.
@@ -149,9 +148,9 @@ Proof.
 Qed.
 
 Lemma inv3_step : forall c s ch s' l,
-  Inv1 s -> Inv2 s -> Inv3 s -> step c s ch = Some (s', l) -> taint s' = false -> Inv3 s'.
+  Inv1 s -> Inv2 s -> Inv3 s -> step c s ch = Some (s', l) -> Inv3 s'.
 Proof.
-  intros c s ch s' l HI1 HI2 HI H Ht. unfold step in H. destruct ch;
+  intros c s ch s' l HI1 HI2 HI H. unfold step in H. destruct ch;
     try (eapply inv3_step_io; eauto; fail); try (eapply inv3_step_w; eauto; fail).
   - destruct (gone s); [discriminate|]. inversion H; subst. destruct HI. constructor; simpl; auto.
   - destruct (gone s); [discriminate|]. inversion H; subst. destruct HI. constructor; simpl; auto.
